@@ -1,1 +1,221 @@
-//! C14 harnesses (not written yet).
+//! C14 — text formatting matches Rust's formatting of the same unsigned integer.
+//!
+//! Reduction (DESIGN.md C14): every formatting impl of bva and of `core`'s unsigned integers
+//! ends in exactly one call `Formatter::pad_integral(is_nonnegative, prefix, digits)` and does
+//! not otherwise touch the formatter; `pad_integral` is a deterministic function of the
+//! formatter state and these three arguments. Under Kani `pad_integral` is *stubbed* to record
+//! its arguments, the harness formats the symbolic vector and the native integer of the same
+//! value with the same trait, and asserts the two recordings are identical. Equality of the
+//! final strings for every `#`, `+`, `0`, width, fill and alignment combination follows.
+//! Natively (replay) the same harness compares complete `format!` outputs over a matrix of
+//! format specifications instead.
+//!
+//! Two further stubs keep CBMC within memory when digit strings are built from *symbolic*
+//! characters: `String::push` (asserts the character is ASCII, then pushes the byte) and
+//! `String::reserve` (no-op: a capacity hint). All three are listed in the evidence.
+use crate::big::{m128, Big};
+use crate::nd;
+use crate::scopes::*;
+use bva::{Bit, BitVector, Bv, Bvd, Bvf};
+use std::fmt;
+
+pub const MAXD: usize = 136;
+
+#[cfg(kani)]
+pub mod k {
+    use std::fmt;
+
+    pub struct Rec {
+        pub calls: usize,
+        pub nonneg: bool,
+        pub plen: usize,
+        pub prefix: [u8; 2],
+        pub dlen: usize,
+        pub digits: [u8; super::MAXD],
+    }
+
+    pub static mut REC: [Rec; 2] = [
+        Rec { calls: 0, nonneg: false, plen: 0, prefix: [0; 2], dlen: 0, digits: [0; super::MAXD] },
+        Rec { calls: 0, nonneg: false, plen: 0, prefix: [0; 2], dlen: 0, digits: [0; super::MAXD] },
+    ];
+    pub static mut CUR: usize = 0;
+
+    pub fn pad_integral_stub<'a>(_f: &mut fmt::Formatter<'a>, is_nonnegative: bool, prefix: &str, buf: &str) -> fmt::Result
+    where
+        'a: 'a,
+    {
+        unsafe {
+            let r = &mut REC[CUR];
+            r.calls += 1;
+            r.nonneg = is_nonnegative;
+            let p = prefix.as_bytes();
+            assert!(p.len() <= 2, "C14: prefix longer than two characters");
+            r.plen = p.len();
+            if p.len() > 0 {
+                r.prefix[0] = p[0];
+            }
+            if p.len() > 1 {
+                r.prefix[1] = p[1];
+            }
+            let d = buf.as_bytes();
+            assert!(d.len() <= super::MAXD, "HARNESS: digit string longer than the recording buffer");
+            r.dlen = d.len();
+            let mut i = 0;
+            while i < d.len() {
+                r.digits[i] = d[i];
+                i += 1;
+            }
+        }
+        Ok(())
+    }
+
+    pub fn push_stub(s: &mut String, c: char) {
+        assert!((c as u32) < 128, "C14: non-ASCII character in a digit string");
+        unsafe { s.as_mut_vec().push(c as u8) }
+    }
+
+    pub fn reserve_stub(_s: &mut String, _additional: usize) {}
+
+    pub struct Sink;
+    impl fmt::Write for Sink {
+        fn write_str(&mut self, _s: &str) -> fmt::Result {
+            panic!("C14: formatter written to directly instead of through pad_integral");
+        }
+    }
+
+    /// Run `fmt` of both sides with a recording `pad_integral` and compare the recordings.
+    pub fn same_pad_integral_call(
+        a: &dyn Fn(&mut fmt::Formatter<'_>) -> fmt::Result,
+        b: &dyn Fn(&mut fmt::Formatter<'_>) -> fmt::Result,
+    ) {
+        unsafe {
+            let mut sink = Sink;
+            CUR = 0;
+            {
+                let mut f = fmt::Formatter::new(&mut sink, fmt::FormattingOptions::new());
+                assert!(a(&mut f).is_ok(), "C14: formatting the bit vector returned an error");
+            }
+            CUR = 1;
+            {
+                let mut f = fmt::Formatter::new(&mut sink, fmt::FormattingOptions::new());
+                assert!(b(&mut f).is_ok(), "HARNESS: formatting the native integer returned an error");
+            }
+            let (x, y) = (&REC[0], &REC[1]);
+            assert!(x.calls == 1, "C14: pad_integral not called exactly once");
+            assert!(y.calls == 1, "HARNESS: core did not call pad_integral exactly once");
+            assert!(x.nonneg == y.nonneg, "C14: sign flag differs from the native integer's");
+            assert!(x.plen == y.plen && x.prefix[0] == y.prefix[0] && x.prefix[1] == y.prefix[1], "C14: prefix differs from the native integer's");
+            assert!(x.dlen == y.dlen, "C14: number of digits differs from the native integer's");
+            let mut i = 0;
+            while i < x.dlen {
+                assert!(x.digits[i] == y.digits[i], "C14: digit differs from the native integer's");
+                i += 1;
+            }
+        }
+    }
+}
+
+/// The format specifications compared natively (replay): every flag, width, fill, alignment.
+#[cfg(not(kani))]
+macro_rules! native_matrix {
+    ($t:literal, $v:expr, $x:expr) => {
+        assert_eq!(format!(concat!("{:", $t, "}"), $v), format!(concat!("{:", $t, "}"), $x), "C14: plain");
+        assert_eq!(format!(concat!("{:#", $t, "}"), $v), format!(concat!("{:#", $t, "}"), $x), "C14: alternate");
+        assert_eq!(format!(concat!("{:+", $t, "}"), $v), format!(concat!("{:+", $t, "}"), $x), "C14: plus");
+        assert_eq!(format!(concat!("{:012", $t, "}"), $v), format!(concat!("{:012", $t, "}"), $x), "C14: zero pad");
+        assert_eq!(format!(concat!("{:#012", $t, "}"), $v), format!(concat!("{:#012", $t, "}"), $x), "C14: alternate zero pad");
+        assert_eq!(format!(concat!("{:>9", $t, "}"), $v), format!(concat!("{:>9", $t, "}"), $x), "C14: right");
+        assert_eq!(format!(concat!("{:*<11", $t, "}"), $v), format!(concat!("{:*<11", $t, "}"), $x), "C14: fill left");
+        assert_eq!(format!(concat!("{:_^+#14", $t, "}"), $v), format!(concat!("{:_^+#14", $t, "}"), $x), "C14: everything");
+    };
+}
+
+/// One formatting trait of one vector type at one *concrete* length (the digit buffers are
+/// allocated by length), contents symbolic; oracle = `core`'s formatting of `$nat`.
+macro_rules! h_fmt {
+    ($name:ident, $unw:literal, $trait:ident, $spec:literal, $a:expr, $nat:ty) => {
+        #[cfg_attr(kani, kani::proof)]
+        #[cfg_attr(kani, kani::unwind($unw))]
+        #[cfg_attr(kani, kani::stub(core::fmt::Formatter::pad_integral, k::pad_integral_stub))]
+        #[cfg_attr(kani, kani::stub(alloc::string::String::push, k::push_stub))]
+        #[cfg_attr(kani, kani::stub(alloc::string::String::reserve, k::reserve_stub))]
+        #[cfg_attr(kani, kani::stub(<[u64]>::copy_from_slice, crate::copy_from_slice_model))]
+        pub fn $name() {
+            let (a, ra) = $a;
+            nd::assume(ra.v.fits(<$nat>::BITS as usize));
+            let x = ra.v.lo as $nat;
+            w!(ra.len == 0 || ra.v.bit(ra.len - 1), "empty, or top bit set (no leading zero digit)");
+            w!(ra.v.is_zero(), "value zero");
+            w!(ra.len < 8 || (!ra.v.is_zero() && ra.v.sig() + 4 < ra.len), "short, or at least one leading zero nibble");
+            #[cfg(kani)]
+            k::same_pad_integral_call(&|f| fmt::$trait::fmt(&a, f), &|f| fmt::$trait::fmt(&x, f));
+            #[cfg(not(kani))]
+            {
+                native_matrix!($spec, a, x);
+            }
+        }
+    };
+}
+
+// ---- Bvf<u8,2>: binary, octal, both hex cases ----------------------------------------------
+h_fmt!(c14_q_bin_f8x2_l0, 3, Binary, "b", f8x2(0), u16);
+h_fmt!(c14_q_bin_f8x2_l1, 4, Binary, "b", f8x2(1), u16);
+h_fmt!(c14_q_bin_f8x2_l9, 12, Binary, "b", f8x2(9), u16);
+h_fmt!(c14_q_bin_f8x2_l13, 16, Binary, "b", f8x2(13), u16);
+h_fmt!(c14_q_bin_f8x2_l16, 19, Binary, "b", f8x2(16), u16);
+h_fmt!(c14_q_oct_f8x2_l0, 3, Octal, "o", f8x2(0), u16);
+h_fmt!(c14_q_oct_f8x2_l8, 8, Octal, "o", f8x2(8), u16);
+h_fmt!(c14_q_oct_f8x2_l13, 8, Octal, "o", f8x2(13), u16);
+h_fmt!(c14_q_oct_f8x2_l16, 9, Octal, "o", f8x2(16), u16);
+h_fmt!(c14_q_lhex_f8x2_l0, 3, LowerHex, "x", f8x2(0), u16);
+h_fmt!(c14_q_lhex_f8x2_l5, 5, LowerHex, "x", f8x2(5), u16);
+h_fmt!(c14_q_lhex_f8x2_l13, 7, LowerHex, "x", f8x2(13), u16);
+h_fmt!(c14_q_lhex_f8x2_l16, 7, LowerHex, "x", f8x2(16), u16);
+h_fmt!(c14_q_uhex_f8x2_l9, 6, UpperHex, "X", f8x2(9), u16);
+h_fmt!(c14_q_uhex_f8x2_l16, 7, UpperHex, "X", f8x2(16), u16);
+// remaining lengths: thorough
+h_fmt!(c14_t_bin_f8x2_l2, 5, Binary, "b", f8x2(2), u16);
+h_fmt!(c14_t_bin_f8x2_l7, 10, Binary, "b", f8x2(7), u16);
+h_fmt!(c14_t_bin_f8x2_l8, 11, Binary, "b", f8x2(8), u16);
+h_fmt!(c14_t_bin_f8x2_l15, 18, Binary, "b", f8x2(15), u16);
+h_fmt!(c14_t_oct_f8x2_l1, 4, Octal, "o", f8x2(1), u16);
+h_fmt!(c14_t_oct_f8x2_l3, 5, Octal, "o", f8x2(3), u16);
+h_fmt!(c14_t_oct_f8x2_l9, 8, Octal, "o", f8x2(9), u16);
+h_fmt!(c14_t_oct_f8x2_l15, 9, Octal, "o", f8x2(15), u16);
+h_fmt!(c14_t_lhex_f8x2_l1, 4, LowerHex, "x", f8x2(1), u16);
+h_fmt!(c14_t_lhex_f8x2_l4, 4, LowerHex, "x", f8x2(4), u16);
+h_fmt!(c14_t_lhex_f8x2_l8, 5, LowerHex, "x", f8x2(8), u16);
+h_fmt!(c14_t_lhex_f8x2_l9, 6, LowerHex, "x", f8x2(9), u16);
+h_fmt!(c14_t_lhex_f8x2_l12, 6, LowerHex, "x", f8x2(12), u16);
+h_fmt!(c14_t_uhex_f8x2_l1, 4, UpperHex, "X", f8x2(1), u16);
+h_fmt!(c14_t_uhex_f8x2_l13, 7, UpperHex, "X", f8x2(13), u16);
+// other word types / N
+h_fmt!(c14_q_lhex_f16x2_l17, 8, LowerHex, "x", f16x2(17), u32);
+h_fmt!(c14_q_bin_f16x2_l17, 20, Binary, "b", f16x2(17), u32);
+h_fmt!(c14_t_oct_f16x2_l32, 14, Octal, "o", f16x2(32), u32);
+h_fmt!(c14_t_uhex_f16x2_l32, 11, UpperHex, "X", f16x2(32), u32);
+h_fmt!(c14_t_lhex_f8x3_l24, 9, LowerHex, "x", f8x3(24), u32);
+h_fmt!(c14_t_bin_f8x3_l20, 23, Binary, "b", f8x3(20), u32);
+
+// ---- 64-bit words: Bvf<u64,2>, Bv (both modes), Bvd, across the word boundary ----------------
+h_fmt!(c14_q_lhex_f64x2_l65, 20, LowerHex, "x", f64x2(65), u128);
+h_fmt!(c14_q_lhex_f64x2_l128, 35, LowerHex, "x", f64x2(128), u128);
+h_fmt!(c14_q_uhex_bvd2_l70, 21, UpperHex, "X", bvd2(70), u128);
+h_fmt!(c14_t_lhex_bvd2_l128, 35, LowerHex, "x", bvd2(128), u128);
+h_fmt!(c14_t_lhex_bvdyn2_l64, 19, LowerHex, "x", bvdyn2(64), u128);
+h_fmt!(c14_q_lhex_bvdyn1_l20, 8, LowerHex, "x", bvdyn1(20), u64);
+h_fmt!(c14_q_uhex_bvfix_l100, 28, UpperHex, "X", bvfix(100), u128);
+h_fmt!(c14_t_oct_f64x2_l66, 25, Octal, "o", f64x2(66), u128);
+h_fmt!(c14_t_oct_bvd2_l128, 46, Octal, "o", bvd2(128), u128);
+h_fmt!(c14_t_bin_f64x2_l66, 69, Binary, "b", f64x2(66), u128);
+h_fmt!(c14_t_bin_bvd2_l65, 68, Binary, "b", bvd2(65), u128);
+h_fmt!(c14_t_bin_bvfix_l128, 131, Binary, "b", bvfix(128), u128);
+h_fmt!(c14_t_lhex_bvd3_l128_spare, 35, LowerHex, "x", bvd3(128), u128);
+
+// ---- decimal: repeated division by ten (each div_rem costs minutes) ---------------------------
+h_fmt!(c14_t_dec_f8x1_l3, 6, Display, "", f8x1(3), u8);
+h_fmt!(c14_t_dec_f8x1_l4, 7, Display, "", f8x1(4), u8);
+h_fmt!(c14_t_dec_f8x1_l7, 10, Display, "", f8x1(7), u8);
+h_fmt!(c14_t_dec_f8x2_l4, 7, Display, "", f8x2(4), u16);
+h_fmt!(c14_t_dec_bvd1_l4, 7, Display, "", bvd1(4), u64);
+h_fmt!(c14_t_dec_bvfix_l4, 7, Display, "", bvfix(4), u64);
